@@ -254,3 +254,19 @@ Theorem C05_passes_monotone : forall H W ks g, wf H W g ->
   (count (run_passes H W ks g) <= count g)%nat /\ (count (run_passes H W ks g) = count g -> run_passes H W ks g = g).
 Proof. exact passes_monotone. Qed.
 Print Assumptions C05_passes_monotone.
+
+Theorem C05_skeletonize_loop_subset : forall H W order g p, wf H W g -> NoDup order ->
+  (forall q, In q order -> img_of g q = true) ->
+  img_of (skel_loop_grid H W order g) p = true -> img_of g p = true.
+Proof. exact skeletonize_loop_subset. Qed.
+Print Assumptions C05_skeletonize_loop_subset.
+
+(* the Euler number (8-components minus holes, counted with representative lists) is preserved; per
+   object: apply it to C05_object_topo *)
+Theorem C05_euler_preserved : forall X X' l m', TopoEq X X' ->
+  comp_reps adj8 (fg X) l -> comp_reps adj4 (bg X') m' ->
+  exists l' m, comp_reps adj8 (fg X') l' /\ comp_reps adj4 (bg X) m /\
+    length l' = length l /\ length m = length m' /\
+    Z.of_nat (length l) - (Z.of_nat (length m) - 1) = Z.of_nat (length l') - (Z.of_nat (length m') - 1).
+Proof. exact euler_preserved. Qed.
+Print Assumptions C05_euler_preserved.
